@@ -30,6 +30,7 @@ var commands = map[string]func([]string){
 	"concurrent": cmdConcurrent,
 	"kueku":      cmdKuEku,
 	"cfgprobe":   cmdCfgProbe,
+	"plant":      cmdPlant,
 }
 
 func main() {
